@@ -16,7 +16,7 @@ def run(ctx):
     echcommon.structural(ctx, sample=24 if ctx.quick else None)
     # duplicated ECH extensions of both kinds, bad ECH types, empty enc ... : the degenerate-but-parseable hellos
     echcommon.run_family(ctx, ["MCEchHello_c04.cfg"], what="C08 degenerate hello", sample=400 if ctx.quick else None,
-                         select=lambda c: c["op"] in ("dupEchBefore", "dupEchInnerBefore", "dupEchAfter", "badEchType", "emptyEnc", "outerTypeInInner", "eoeBadLen", "eoeOdd", "eoeRepeated", "eoeAmplify", "eoeTwice", "svOdd", "innerSvOdd", "sniNameType", "sniTwoNames", "innerSniNameType", "innerTypeNo13"))
+                         select=lambda c: c["op"] in ("dupEchBefore", "dupEchInnerBefore", "dupEchAfter", "badEchType", "emptyEnc", "outerTypeInInner", "eoeBadLen", "eoeOdd", "eoeRepeated", "eoeAmplify", "eoeTwice", "eoeNoData", "eoeEmptyList", "svOdd", "innerSvOdd", "sniNameType", "sniTwoNames", "innerSniNameType", "innerTypeNo13"))
     # degenerate payloads and encapsulated keys for a held key: shorter than an AEAD tag, empty, truncated
     echcommon.run_family(ctx, ["MCEchHello_c02.cfg"], what="C08 degenerate payload", sample=300 if ctx.quick else None,
                          select=lambda c: c["op"] in ("tinyCt", "emptyCt", "truncCt", "truncEnc", "echTrailing"))
